@@ -24,6 +24,15 @@ CHECKS = {
         note="Trusted: the independent TS/PES/PSI reader harness/proj/ts.go; lal's constant 63000-tick PTS delay is a "
              "spec constant.",
         ref="6/C09"),
+    "C11": dict(
+        technique="TLA+ spec FlvWs (session write-unit machine + tag/WebSocket field functions) + edge-cover replay "
+                  "into httpflv.SubSession / FlvFileWriter / PackHttpflvTag / MakeWsFrameHeader + TLC trace validation",
+        text="TLC enumerates session shapes (plain HTTP-FLV, WebSocket-FLV, file) x tag type x length x timestamp pools; "
+             "every edge is executed against the real sub-session / file writer / pack functions, the bytes are cut by an "
+             "independent FLV and RFC 6455 reader and TLC decides header fields, stream grammar, one-frame-per-unit and "
+             "lal's own read-back against the specification.",
+        note="Trusted: independent FLV/WebSocket reader harness/proj/flv.go; lengths/timestamps are boundary pools.",
+        ref="6/C11"),
 }
 
 NOT_APPLICABLE = {}
